@@ -17,6 +17,9 @@ mod visitors;
 
 pub use rename::RenameExt;
 
+#[cfg(feature = "verif-hooks")]
+pub mod verif_hooks;
+
 #[derive(Debug, Error)]
 #[allow(missing_docs)]
 pub enum ProcessInputError {
